@@ -7,6 +7,7 @@ import NucsProofs.Propagators.Counting
 import NucsProofs.Propagators.Dummy
 import NucsProofs.Propagators.Element
 import NucsProofs.Propagators.ExactOfSupport
+import NucsProofs.Propagators.GccCIsPort
 import NucsProofs.Propagators.GccExact
 import NucsProofs.Propagators.GccLbcFinal
 import NucsProofs.Propagators.GccPortSound
@@ -91,5 +92,13 @@ theorem C14_gcc_port_idempotent (ps : List Int) (B : Box) (hc : Contract .gcc ps
     (hu : ∀ j, j < (ps.length - 1) / 2 → 1 ≤ getI ps (1 + (ps.length - 1) / 2 + j))
     (st : Status) (B' : Box) (h : gcc ps B = .ok (st, B')) (hst : st ≠ .inc) : gcc ps B' = .ok (.cons, B') :=
   gcc_port_idempotent ps B hc hB hu st B' h hst
+
+/-- the registered model of gcc (the port behind an exponential result checker) IS the ported Python algorithm whenever there are
+    at most 12 values and every upper capacity is at least 1: the checker accepts every answer of the port (the hard direction of
+    Hoffman's condition, `gcc_feasible_of_not_infeasible`) and the fallback is never used; so on these inputs `C05/C06_gcc` and the
+    engine theorems, which are about `runAlg .gcc`, are about the line-by-line port of nucs/propagators/gcc_propagator.py -/
+theorem C14_gcc_is_port (ps : List Int) (B : Box) (hc : Contract .gcc ps B) (hB : B.Nonempty)
+    (hu : ∀ j, j < (ps.length - 1) / 2 → 1 ≤ getI ps (1 + (ps.length - 1) / 2 + j)) (hm : gccM ps ≤ 12) :
+    ∃ st B', gcc ps B = .ok (st, B') ∧ gccC ps B = .ok (st, if st = .inc then B else B') := gccC_is_port ps B hc hB hu hm
 
 end Nucs
